@@ -397,8 +397,10 @@ class CFG:
         return lab != "exc"
 
     # must-facts: atoms (by unparse text) known true/false on every path to a node
-    def must_facts(self, kill_on_call: bool = False) -> dict[int, frozenset[tuple[str, bool]]]:
-        reach = self.reachable([self.entry])
+    def must_facts(self, kill_on_call: bool = False, edge_ok: Callable[[int, int, str], bool] | None = None) -> dict[int, frozenset[tuple[str, bool]]]:
+        """Atoms (unparse text, truth) established on every entry->node path.  `edge_ok` removes edges
+        (paths the caller has shown infeasible / irrelevant) before the dataflow."""
+        reach = self.reachable([self.entry], edge_ok=edge_ok)
         TOP = None
         facts: dict[int, frozenset | None] = {n: TOP for n in reach}
         facts[self.entry] = frozenset()
@@ -453,6 +455,8 @@ class CFG:
             n = self.nodes[nid]
             for t, lab in n.succ:
                 if t not in facts:
+                    continue
+                if edge_ok is not None and not edge_ok(nid, t, lab):
                     continue
                 nf = out_facts(n, f, lab)
                 old = facts[t]
